@@ -164,8 +164,8 @@ NULL = Ptr(None, 0)
 class LRef:
     """assignable location"""
 
-    def __init__(self, get, set_):
-        self.get, self.set = get, set_
+    def __init__(self, get, set_, ptr=None):
+        self.get, self.set, self.ptr = get, set_, ptr
 
 
 class StdVector:
@@ -725,7 +725,7 @@ class CInterp:
         if not isinstance(p, Ptr) or p.region is None:
             raise Unsupported("dereference of a non-pointer / NULL")
         i = p.off + idx
-        return LRef(lambda: p.region.read(i), lambda v: p.region.write(i, v))
+        return LRef(lambda: p.region.read(i), lambda v: p.region.write(i, v), ptr=Ptr(p.region, i))
 
     def e_ArraySubscriptExpr(self, n, env):
         base = self.rv(self.expr(n["inner"][0], env))
@@ -742,6 +742,8 @@ class CInterp:
             return self.mem_ref(self.rv(x), 0)
         if op == "&":
             if isinstance(x, LRef):
+                if x.ptr is not None:
+                    return x.ptr
                 return AddrOf(x)
             raise Unsupported("address-of")
         if op in ("++", "--"):
@@ -863,7 +865,7 @@ class CInterp:
 
     def e_CXXConstructExpr(self, n, env):
         qt = n.get("type", {}).get("qualType", "")
-        args = [self.rv(self.expr(a, env)) for a in n.get("inner", [])]
+        args = [self.rv(self.expr(a, env)) for a in n.get("inner", []) if a.get("kind") != "CXXDefaultArgExpr"]
         if "fvec4" in qt:
             if len(args) == 4:
                 return FV(args)
@@ -883,6 +885,11 @@ class CInterp:
                 return StdVector(args[0].items)
             if len(args) >= 1 and isinstance(args[0], int):
                 return StdVector([args[1] if len(args) > 1 else 0] * args[0])
+            if len(args) == 1 and isinstance(args[0], SInt):
+                # std::vector<T> v(n) with symbolic n: a heap region (contents unspecified until written)
+                r = Region(core.fresh_name("vec"), "real" if ("float" in qt or "double" in qt) else "int")
+                r.vsize = args[0]
+                return VecRegion(r)
         raise Unsupported(f"constructor of {qt} with {len(args)} arguments")
 
     e_CXXTemporaryObjectExpr = e_CXXConstructExpr
@@ -904,6 +911,8 @@ class CInterp:
                 if i is None:
                     raise Unsupported("symbolic vector index")
                 return LRef(lambda: a0.items[i], lambda v: a0.items.__setitem__(i, v))
+            if isinstance(a0, VecRegion):
+                return self.mem_ref(Ptr(a0.region, 0), idx)
             raise Unsupported("operator[] on " + type(a0).__name__)
         if op == "operator=":
             v = self.rv(args[1])
@@ -966,6 +975,13 @@ class CInterp:
             if name == "back":
                 return LRef(lambda: obj.items[-1], lambda v: obj.items.__setitem__(-1, v))
         raise Unsupported(f"member call {name} on {type(obj).__name__}")
+
+
+class VecRegion:
+    """std::vector with a symbolic size, backed by a memory region"""
+
+    def __init__(self, region):
+        self.region = region
 
 
 class AddrOf:
